@@ -399,6 +399,12 @@ class Verifier:
             extra[g] = v
         extra["ncalls"] = VInt(len(run.calls))
         if exc is None:
+            for gpath, gex in c.ghost_exit.items():
+                gv = self.eval_spec(I, gex, sframe, extra)
+                base, attr = gpath.rsplit(".", 1)
+                bobj = self.eval_spec(I, base, sframe, extra)
+                run.rec(bobj.oid).fields[attr] = gv
+        if exc is None:
             fr.exits["return"] += 1
             extra["exc"] = NONE
             for lbl, ex in c.ensures.items():
